@@ -65,6 +65,21 @@ func genInt(t *rapid.T, label string) any {
 	}
 }
 
+// Listed finding: a JSON ARRAY given for a scalar field is not rejected by the dynamic-message JSON decoder the grpc gun
+// uses (github.com/jhump/protoreflect dynamic.Message.UnmarshalJSON): the last element is taken, {"name": ["a","b"]}
+// reaches the server as name:"b". While it is listed the generator draws another ill-typed value instead.
+const findingArrayForScalar = "grpc-json-array-for-scalar-field-accepted"
+
+var curRun *vf.Run // set by the test functions; genEntry consults the known-findings list through it
+
+func notArrayIfKnown(v any) any {
+	if _, isArr := v.([]any); isArr && curRun != nil && curRun.IsKnown(findingArrayForScalar) {
+		curRun.Excluded(findingArrayForScalar)
+		return map[string]any{"x": 1}
+	}
+	return v
+}
+
 func genEntry(t *rapid.T, idx int) Entry {
 	e := Entry{}
 	e.Method = rapid.SampledFrom([]string{"Hello", "Auth", "List", "Order"}).Draw(t, "method")
@@ -99,11 +114,11 @@ func genEntry(t *rapid.T, idx int) Entry {
 		e.Invalid = "wrong_type"
 		switch e.Method {
 		case "Hello":
-			p["name"] = map[string]any{"x": 1}
+			p["name"] = notArrayIfKnown(rapid.SampledFrom([]any{map[string]any{"x": 1}, []any{"a"}, []any{"a", "b"}, 5, true}).Draw(t, "wrongName"))
 		case "Auth":
-			p["login"] = []any{1}
+			p["login"] = notArrayIfKnown(rapid.SampledFrom([]any{[]any{"a", "b"}, map[string]any{}, 7.5}).Draw(t, "wrongLogin"))
 		default:
-			p["user_id"] = "not-a-number"
+			p["user_id"] = notArrayIfKnown(rapid.SampledFrom([]any{"not-a-number", []any{1, 2}, map[string]any{"v": 1}, "1.5", 1.5, true}).Draw(t, "wrongUID"))
 		}
 	}
 	b, _ := json.Marshal(p)
@@ -370,8 +385,33 @@ func mustJSON(v any) string {
 	return string(b)
 }
 
+// TestKnownWitness re-confirms the listed finding with a fixed case (strict oracle: while the finding is listed a
+// failure of exactly this case is reported as KNOWN-FINDING, otherwise it is a violation like any other).
+func TestKnownWitness(t *testing.T) {
+	pand.Init()
+	r := vf.Start(t, "C20")
+	c := Case{Entries: []Entry{
+		{Method: "Hello", Payload: `{"name": ["a", "b"]}`, Metadata: map[string]string{"x-entry": "0"}, Invalid: "wrong_type"},
+		{Method: "Hello", Payload: `{"name": "ok"}`, Metadata: map[string]string{"x-entry": "1"}},
+	}, TimeoutMs: 1000, Instances: 1}
+	o := &vf.Obs{}
+	err := vf.Guard(func() error { return check(c, o) })
+	if err != nil && r.IsKnown(findingArrayForScalar) && strings.Contains(err.Error(), "the server received a call for it") {
+		r.KnownHit(findingArrayForScalar)
+		o.NonTrivial()
+		r.Record(c, o, nil)
+		return
+	}
+	o.NonTrivial()
+	r.Record(c, o, err)
+	if err != nil {
+		t.Fatalf("%v", err)
+	}
+}
+
 func TestGRPCJSON(t *testing.T) {
 	pand.Init()
 	r := vf.Start(t, "C20")
+	curRun = r
 	vf.Check(r, genCase, vf.LoadTolerant(25*time.Millisecond, check))
 }
